@@ -84,4 +84,45 @@ def gaussInputDeriv (γ : α) (C X1 X2 : Mat α) : Mat α :=
   List.zipWith (fun crow x => gaussInputRow exp γ crow x X2) C X1
 
 end
+
+/-! ### ARDKernelUnconstrained: plain scalar loops over (i, j), modelled in the loop order of the C++ -/
+section ard
+variable {α : Type} [Add α] [Sub α] [Mul α] [Div α] [Neg α] [OfNat α 0] [OfNat α 1]
+variable (exp : α → α)
+
+/-- `gradient -= coeff * m_gammas * sqr(x - z)` for one pair, coordinate-wise -/
+def ardParamStep (gs : List α) (coeff : α) (x z : Point α) (g : List α) : List α :=
+  (List.range g.length).map fun t =>
+    g.getD t 0 - coeff * gs.getD t 0 * ((x.getD t 0 - z.getD t 0) * (x.getD t 0 - z.getD t 0))
+
+/-- inner loop over `j` -/
+def ardParamRow (gs : List α) (x : Point α) : List α → Mat α → List α → List α
+  | c :: cs, z :: zs, g => ardParamRow gs x cs zs (ardParamStep gs (c * exp (-(mahal gs x z))) x z g)
+  | _, _, g => g
+
+/-- `ARDKernelUnconstrained::weightedParameterDerivative` (parameters are `log γ`): outer loop over `i` -/
+def ardParamDeriv (gs : List α) : Mat α → Mat α → Mat α → List α → List α
+  | crow :: C, x :: X1, X2, g => ardParamDeriv gs C X1 X2 (ardParamRow exp gs x crow X2 g)
+  | _, _, _, g => g
+
+/-- `row(gradient,i) += coeff * m_gammas * (x - z)` for one pair -/
+def ardInputStep (gs : List α) (coeff : α) (x z : Point α) (g : List α) : List α :=
+  (List.range g.length).map fun t => g.getD t 0 + coeff * gs.getD t 0 * (x.getD t 0 - z.getD t 0)
+
+def ardInputAcc (gs : List α) (x : Point α) : List α → Mat α → List α → List α
+  | c :: cs, z :: zs, g => ardInputAcc gs x cs zs (ardInputStep gs (c * exp (-(mahal gs x z))) x z g)
+  | _, _, g => g
+
+/-- row `i` of `ARDKernelUnconstrained::weightedInputDerivative`: accumulate over `j`, then `*= -2.0` -/
+def ardInputRow (gs : List α) (crow : List α) (x : Point α) (X2 : Mat α) : List α :=
+  (ardInputAcc exp gs x crow X2 (gs.map fun _ => 0)).map (· * (-(two)))
+
+def ardInputDeriv (gs : List α) (C X1 X2 : Mat α) : Mat α :=
+  List.zipWith (fun crow x => ardInputRow exp gs crow x X2) C X1
+
+/-- `ScaledKernel`: both derivatives are the base derivative times the factor (`gradient *= m_factor`) -/
+def scaledGrad (factor : α) (g : List α) : List α := g.map (· * factor)
+
+end ard
+
 end SharkVerif.Kernels
